@@ -115,6 +115,8 @@ func (n *node) boot() error {
 	logger := settle.Logger()
 	n.ctl = sched.New()
 	n.gs = settle.NewGateStore(n.inner, n.ctl, "retrieved_traffic_", "transferred_traffic_", "traffic_last_send_cheque_")
+	// the refresh reads the persisted totals: those reads are gates too (for a refresh that is a scheduled goroutine)
+	n.gs.GatedGets = []string{"retrieved_traffic_", "transferred_traffic_"}
 	n.emit = &settle.Emit{Ctl: n.ctl}
 	n.cs = chequePkg.NewChequeStore(n.gs, settle.Addr(0), chequePkg.RecoverCheque, settle.ChainID)
 	book := traffic.NewAddressBook(n.gs)
@@ -356,6 +358,8 @@ func statusFields(ev kit.Ev, s sched.Status) {
 			ev["val"] = atoi(s.Info["val"].(string))
 		} else if s.Point == "emit" {
 			ev["val"] = s.Info["cum"].(int64)
+		} else if s.Point == "get" {
+			ev["key"] = keyKind(s.Info["key"].(string)) // parked before the read
 		}
 	case "ret":
 		if e, ok := s.Ret.(error); ok && e != nil {
@@ -418,6 +422,24 @@ func runSched(sc kit.Scenario, out *kit.Out) error {
 				return svc.Pay(context.Background(), settle.Overlay(p), big.NewInt(thr))
 			})
 			statusFields(ev, n.ctl.Wait(t))
+		case "refstart":
+			// a live refresh (the public TrafficInit) as a goroutine of its own; it hands the per-peer work to a
+			// worker goroutine whose reads of the persisted totals are attributed to this thread
+			if n.ctl.Running(t) {
+				return false
+			}
+			svc := n.svc
+			n.ctl.SetProxy(t, "replaceTraffic", "get")
+			n.ctl.Start(t, func() interface{} { return svc.TrafficInit() })
+			statusFields(ev, n.ctl.Wait(t))
+		case "refget":
+			parked, at := n.ctl.Parked(t)
+			if !parked || at.Point != "get" {
+				return false
+			}
+			ev["done"] = true
+			n.ctl.Release(t, nil, nil)
+			statusFields(ev, n.ctl.Wait(t))
 		case "persist", "persistcheque", "emit":
 			ok := true
 			want := "put"
@@ -476,7 +498,7 @@ func runSched(sc kit.Scenario, out *kit.Out) error {
 		t, p := kit.Int(op, "t"), kit.Int(op, "p")
 		ev := kit.Ev{"op": name, "t": t, "p": p}
 		switch name {
-		case "start", "paystart", "persist", "persistcheque", "emit":
+		case "start", "paystart", "persist", "persistcheque", "emit", "refstart", "refget":
 			if len(queue[t]) > 0 || !try(op) {
 				queue[t] = append(queue[t], op)
 				out.Emit(kit.Ev{"op": "deferred", "t": t, "p": p, "what": name})
